@@ -54,8 +54,12 @@ func coreC19(tier string) []RunSpec {
 	for wi := 0; wi < 3; wi++ {
 		out = append(out, RunSpec{Profile: "core:outside-redeem-then-restore", Params: map[string]int{"scenario": 7, "fee": 0, "wit": wi}})
 	}
-	for k := 0; k < 3; k++ {
-		out = append(out, RunSpec{Profile: "core:token-with-respelled-mint-url", Params: map[string]int{"scenario": 8, "fee": 0, "k": k}})
+	// whether the wallet ends up holding the second spelling depends on the run's other seeded choices
+	// (round 3: seeds 3 and 82 reached it, seed 1 did not), so each spelling is run under four tapes
+	for v := 0; v < 4; v++ {
+		for k := 0; k < 3; k++ {
+			out = append(out, RunSpec{Profile: "core:token-with-respelled-mint-url", Params: map[string]int{"scenario": 8, "fee": 0, "k": k, "v": v}})
+		}
 	}
 	for k := 0; k < 2; k++ {
 		out = append(out, RunSpec{Profile: "core:restore-at-batch-boundary", Params: map[string]int{"scenario": 9, "fee": 0, "k": k}})
@@ -270,6 +274,18 @@ func runC19(rc *RunCtx) {
 		ww.mintInto(b, 13)
 		checked = ww.CheckCounters(checked)
 		ww.step++
+		// the wallet program is started again: its counters now come from storage, where the keyset may
+		// sit under both spellings of the mint's URL (C19_wE: only one of the two records was advanced)
+		if nb := ww.node(b); nb != nil && nb.W != nil {
+			ww.op("w.reload")
+			rc.Quietly(func() {
+				ww.W.StopWallet(b)
+				if _, err := ww.W.StartWallet(b, mintNameOfURL(nb.Mint)); err != nil {
+					ww.W.Book.Violate("W.reload_failed", "reload", "wallet does not load again after a clean shutdown: %v", err)
+				}
+			})
+			rc.S.Probe("c19_reload_with_two_spellings")
+		}
 		ww.mintInto(b, 7)
 		checked = ww.CheckCounters(checked)
 		ww.Settle()
